@@ -211,7 +211,8 @@ class Pervaporation:
             permeate_pressure,
             calculation_type,
         )
-        return (composition.second / composition.first) / (
+        feed_comp = composition.to_weight(self.mixture)
+        return (feed_comp.second / feed_comp.first) / (
             perm_comp.second / perm_comp.first
         )
 
